@@ -9,6 +9,10 @@ CLAIMS = {
          "Trusted: Lean kernel; SQLite as a finite map with INSERT OR REPLACE / ORDER BY semantics; packets handled one at a time (tokio mutex outside the model); clock monotone; harness owns the clock by overriding clock_gettime."),
  "C09": ("Lean 4 theorems over the same store model: C09_keeps_address (a client holding an unexpired lease inside the serving pool gets an address it holds there, the named one if it names one it holds), C09_refusal_only_when_exhausted (NoAssignableAddress implies every pool address is held unexpired by another client), C09_ack_after_offer (after an offer of x, whatever other clients do and however time passes before expiry, a request naming x from any pool containing x yields x). Correspondence as C01, with the C09 predicates evaluated on the implementation's observations.",
          "As C01. The theorems are about select_address/allocate_address; the mapping DISCOVER/REQUEST -> (client id, requested address) is covered by the dhcp-level correspondence (C13)."),
+ "C10": ("Lean 4 theorems: C10_bounds (for every proposed duration the advertised lease lies in [min,max]), C10_record (the row written starts at the clock read after the request, lasts exactly the advertised time and so never expires before t+L), C10_start_le_expiry (invariant over all histories that discharges the u32 subtraction), C10_offer_and_ack_carry_lease_time (every reply of handle_pkt, OFFER and ACK alike, carries option 51 = the granted lease within the default bounds, equal to the recorded duration) and the extracted defaults 300/86400. Tied to the code by pool histories (allocate_address) and by packet histories through dhcp::handle_pkt on configurations loaded by the real loader, with the C10 predicates evaluated on the implementation's replies and rows.",
+         "As C01; apply-default-lease / apply-max-lease are parsed but never reach allocate_address (observation, outside the statement: bounds are the defaults). u32 casts exact until 2106 (C10_no_wrap)."),
+ "C13": ("Lean 4 theorems over the handle_pkt model (Handles relation: dispatch, foreign server-id test, policy evaluation, pool step, reply builders): C13_replied_only_for_this_server, C13_no_reply_no_change (any refusal leaves the store identical), C13_only_own_row, C13_reply_echoes (xid, chaddr, giaddr, flags, server identifier of this server), for every configuration, store and decoded message. Tied to the code by the extracted dispatch shape and by differential packet histories through dhcp::handle_pkt (every message type, own/foreign/malformed server-id) comparing the full reply (all options) and the lease table after every packet.",
+         "As C01; yaml_rust/loader trusted to produce the policy tree the harness dumps; the serverids set is passed in by the caller (recvdhcp adds the identifiers it used)."),
  "C12": ("Lean 4 theorems, for all inputs: parse(serialise m)=m for every well-formed DHCP message with option values of any length in any map order; Ethernet/IPv4/UDP frame layout, lengths and both one's-complement checksums verify for every payload <= 65507; broadcast test = MSB for all 65536 flag values (kernel enumeration over the mask regenerated from the source) and destination choice. The model is tied to the code by byte-exact differential runs of dhcppkt::parse / Dhcp::serialise / Fragment::new_udp4 / get_broadcast_flag against the model and by an independent frame validator as oracle.",
          "Trusted: Lean kernel (axioms propext, Quot.sound only), extract.py regexes for the mask/magic/destination shape, the harness generator. The destination choice sits in an async fn that needs sockets: its shape is extracted, not executed. HashMap iteration order modelled as arbitrary."),
 }
